@@ -152,9 +152,10 @@ func sanitisedOnly(c *Ctx, pa *provAnalysis, fns []*ssa.Function, comp string) (
 }
 
 func checkC14(c *Ctx, r *Report) {
-	r.Rules = []string{"D8 version schema decision table", "D8 semver split: rewrite only on successful parse, explicit prerelease/metadata win", "F13 separator literals in templates, file names and formatters", "F13 prerelease sanitised for rpm and archlinux", "epoch syntax", "D8-order environment expansion precedes the defaults", "F13-width parsed components are not narrowed after the parse"}
+	r.Rules = []string{"D8 version schema decision table", "D8 semver split: rewrite only on successful parse, explicit prerelease/metadata win", "F13 separator literals in templates, file names and formatters", "F13 prerelease sanitised for rpm and archlinux", "epoch syntax", "D8-order environment expansion precedes the defaults", "F13-width parsed components are not narrowed after the parse", "D8-verbatim the version field is never handed to a string-rewriting function in a packager", "lossless-F6-parsed no branch on a parsed epoch/release (imported from C02)"}
 	r.Explanation = "Decision-table and literal-provenance rules. (D8) nfpm.WithDefaults is abstractly evaluated for version_schema in {none, semver, empty, anything else}: the semver split is dead for 'none' and live otherwise; inside the split the version is rewritten only on the success edge of the parse, from major/minor/patch alone, and prerelease and metadata are filled from the parsed version only behind an emptiness test of the same field (explicit values win; nothing is duplicated because the rewritten version carries no prerelease/metadata). (F13) in the deb and ipk control templates, in their conventional file names and in rpm's version formatter the literal immediately before the prerelease is '~' — the only character both dpkg and rpmvercmp order before the end of the string, so this literal is what makes every prerelease build sort before its release — metadata is introduced by '+', release by '-', the epoch is followed by ':' (deb/ipk) or goes to the numeric rpm epoch with its parse error returned; rpm and archlinux replace '-' by '_' in the prerelease. Concrete version comparison is not executed."
 	r.Explanation += " (D8-order) in the function that expands the configuration every WithDefaults call is dominated by the expansion. (F13-width) an epoch/release parsed with N bits is never converted to a narrower integer type."
+	r.Explanation += " (D8-verbatim) in every packager each load of Info.Version reaches, through phis and conversions, only formatting, concatenation, comparison and module functions - no strings/bytes/regexp/path rewriting call. (lossless-F6-parsed) imported from C02."
 	r.Assumptions = []string{
 		"Masterminds/semver accepts the documented grammar (v-prefix, fewer than three parts) and Prerelease()/Metadata() return the parsed components",
 		"dpkg and rpm order '~' before anything including the end of the string (their documented comparison algorithms)",
@@ -575,7 +576,87 @@ func checkVersionLines(c *Ctx, r *Report) {
 		}
 	}
 	r.Floor("F13-plain", n, 2)
+	r.Floor("lossless-F6-parsed", importRules(c, r, checkC02, "lossless-", []string{"F6-parsed"}, nil), 3)
+	checkVersionVerbatim(c, r)
 	r.Floor("lossless-F3", importRules(c, r, checkC02, "lossless-", []string{"F3"}, func(o Obligation) bool {
 		return strings.HasSuffix(o.Construct, ": Version") || strings.Contains(o.Construct, "pkgver")
 	}), 2)
+}
+
+// checkVersionVerbatim (D8-verbatim): "with schema 'none', or when the version
+// does not parse, the string is used verbatim": in the packagers the version
+// field itself is only read, concatenated and formatted - it is never handed
+// to a string-rewriting library function (a trim of a leading "v", a
+// replacement, a case change). The semver split is the only place that may
+// take the string apart, and it does so only on a successful parse (D8).
+func checkVersionVerbatim(c *Ctx, r *Report) {
+	n := 0
+	for _, pk := range c.Packagers {
+		if pk.Format == "" {
+			continue
+		}
+		loads := 0
+		var bad []string
+		var at ssa.Instruction
+		for _, fn := range sortedFuncs(c, c.Reach(pk.Package, pk.FileName)) {
+			if c.funcPkgPath(fn) != pk.PkgPath {
+				continue
+			}
+			forEachInstr(fn, func(in ssa.Instruction) {
+				ld, ok := in.(*ssa.UnOp)
+				if !ok || ld.Op != token.MUL {
+					return
+				}
+				pth, root := addrPath(ld.X)
+				if root == nil || pth != "Version" || !isPtrToNamed(root.Type(), modPath, "Info") {
+					return
+				}
+				loads++
+				seen := map[ssa.Value]bool{}
+				var walk func(v ssa.Value, d int)
+				walk = func(v ssa.Value, d int) {
+					if d > 4 || seen[v] || v.Referrers() == nil {
+						return
+					}
+					seen[v] = true
+					for _, ref := range *v.Referrers() {
+						switch x := ref.(type) {
+						case *ssa.Phi:
+							walk(x, d+1)
+						case *ssa.Convert:
+							walk(x, d+1)
+						case *ssa.Call:
+							o := calleeObj(x)
+							if o == nil || o.Pkg() == nil {
+								continue
+							}
+							switch o.Pkg().Path() {
+							case "strings", "bytes", "regexp", "unicode", "path", "path/filepath":
+							default:
+								continue
+							}
+							switch o.Name() {
+							case "HasPrefix", "HasSuffix", "Contains", "ContainsAny", "ContainsRune", "Index", "EqualFold", "Count", "NewReader", "WriteString", "Compare":
+								continue
+							}
+							bad = append(bad, qualifiedName(o))
+							at = x
+						}
+					}
+				}
+				walk(ld, 0)
+			})
+		}
+		if loads == 0 {
+			continue
+		}
+		n++
+		pos := c.pos(pk.Package.Pos())
+		if at != nil {
+			pos = c.instrPos(at)
+		}
+		r.Check(len(bad) == 0, "D8-verbatim", pk.Format+": the version field is used as it stands", pos,
+			fmt.Sprintf("%d read(s) of Info.Version; handed to %v: a version that reaches the packager unsplit (schema none, or not a semantic version) would be written differently from what was configured", loads, uniq(bad)))
+	}
+	r.Floor("D8-verbatim", n, 4)
 }
